@@ -79,6 +79,28 @@ func TestVFC01Runtime(t *testing.T) {
 			}
 		}
 
+		// what the source of every list holds; the list itself (c.Block,
+		// c.Allow) follows when it is refreshed, switched on or re-pointed
+		srcBlock, srcAllow := slices.Clone(c.Block), slices.Clone(c.Allow)
+		// refresh is what POST /control/filtering/refresh does: every enabled
+		// list of the kind is read from its source again
+		refresh := func(allow bool) {
+			call(http.MethodPost, "/control/filtering/refresh", map[string]any{"whitelist": allow})
+			lists, src, on := c.Block, srcBlock, c.BlockOn
+			if allow {
+				lists, src, on = c.Allow, srcAllow, c.AllowOn
+			}
+			for i := range lists {
+				if !on[i] {
+					continue
+				}
+				if !vfSameRules(lists[i], src[i]) {
+					vfC01.Class(fmt.Sprintf("rt:refresh_changes_list:rules=%d", len(src[i])))
+				}
+				lists[i] = src[i]
+			}
+		}
+
 		vfC01Case(t, c, w, w.run, rapid.IntRange(2, 8).Draw(t, "n_queries_before"), "rt0:")
 
 		nPhases := rapid.IntRange(1, 4).Draw(t, "n_phases")
@@ -93,10 +115,10 @@ func TestVFC01Runtime(t *testing.T) {
 					kinds = append(kinds, "protection", "protection", "protection")
 				}
 				if len(c.Block) > 0 {
-					kinds = append(kinds, "toggle_block", "toggle_block", "toggle_block", "repoint_block")
+					kinds = append(kinds, "toggle_block", "toggle_block", "toggle_block", "repoint_block", "rewrite_source", "refresh")
 				}
 				if len(c.Allow) > 0 {
-					kinds = append(kinds, "toggle_allow", "toggle_allow")
+					kinds = append(kinds, "toggle_allow", "toggle_allow", "rewrite_source", "refresh")
 				}
 				if c.Client != nil {
 					kinds = append(kinds, "client_update", "client_update_rejected")
@@ -122,9 +144,47 @@ func TestVFC01Runtime(t *testing.T) {
 					lastToggled = id
 					if !on[i] {
 						// remember: the next toggle of the same list re-enables it
-						// with unchanged contents
 						continue
 					}
+					// a list that is switched on is read from its source again
+					if allow {
+						if !vfSameRules(c.Allow[i], srcAllow[i]) {
+							vfC01.Class("rt:list_on_with_changed_source")
+						}
+						c.Allow[i] = srcAllow[i]
+					} else {
+						if !vfSameRules(c.Block[i], srcBlock[i]) {
+							vfC01.Class("rt:list_on_with_changed_source")
+						}
+						c.Block[i] = srcBlock[i]
+					}
+				case "rewrite_source":
+					// the publisher of a list changes it; nothing happens to the
+					// verdicts until the list is read again
+					allow := len(c.Block) == 0 || (len(c.Allow) > 0 && rapid.Bool().Draw(t, label+"_allowlist"))
+					urls, src := w.blockURLs, srcBlock
+					if allow {
+						urls, src = w.allowURLs, srcAllow
+					}
+					i := rapid.IntRange(0, len(urls)-1).Draw(t, label+"_list")
+					nr := rapid.SampledFrom([]int{0, 1, 2, 3}).Draw(t, label+"_n_rules")
+					var rs []vfRule
+					for j := 0; j < nr; j++ {
+						rs = append(rs, vfDrawRule(t, c.Subjects, fmt.Sprintf("%s_r%d", label, j), allow, c.Client, c.Core))
+					}
+					if werr := os.WriteFile(urls[i], []byte(strings.Join(vfTexts(rs), "\n")+"\n"), 0o644); werr != nil {
+						t.Fatalf("VERIF-INCONCLUSIVE writing list source: %v", werr)
+					}
+					for _, r := range src[i] {
+						c.focus = append(c.focus, r.Domain)
+					}
+					src[i] = rs
+					vfC01.Class(fmt.Sprintf("rt:rewrite_source:rules=%d", nr))
+					if rapid.IntRange(0, 2).Draw(t, label+"_then_refresh") > 0 {
+						refresh(allow)
+					}
+				case "refresh":
+					refresh(len(c.Block) == 0 || (len(c.Allow) > 0 && rapid.Bool().Draw(t, label+"_allowlist")))
 				case "repoint_block":
 					// the list gets another source (a new URL) with other rules,
 					// possibly none at all
@@ -151,7 +211,7 @@ func TestVFC01Runtime(t *testing.T) {
 						for _, r := range c.Block[i] {
 							c.focus = append(c.focus, r.Domain)
 						}
-						c.Block[i] = rs
+						c.Block[i], srcBlock[i] = rs, rs
 						w.blockURLs[i] = newURL
 						vfC01.Class(fmt.Sprintf("rt:repoint_block:accepted:rules=%d", nr))
 					} else {
@@ -253,4 +313,9 @@ func TestVFC01Runtime(t *testing.T) {
 			vfC01CaseSettle(t, c, w, w.run, rapid.IntRange(3, 10).Draw(t, fmt.Sprintf("p%d_n_queries", ph)), "rt:", vfC01Settle)
 		}
 	})
+}
+
+// vfSameRules reports whether two rule lists have the same texts in order.
+func vfSameRules(a, b []vfRule) (ok bool) {
+	return slices.EqualFunc(a, b, func(x, y vfRule) bool { return x.Text == y.Text })
 }
